@@ -4,7 +4,9 @@
 import json, sys, glob, subprocess
 pid = sys.argv[1]
 base = subprocess.check_output(["python3", "/verif/tools/seed_prompt.py", pid]).decode()
-base = base.replace("/tmp/seed-out/%s/" % pid, "/tmp/seed-out5/%s/" % pid)
+import os
+OUT = os.environ.get("SEED_OUT", "/tmp/seed-out6")
+base = base.replace("/tmp/seed-out/%s/" % pid, "%s/%s/" % (OUT, pid))
 base = base.replace("12 failed / ~1320 passed plus 1 collection error", "11 or 12 failed / ~1320 passed plus 1 collection error")
 prev = []
 for m in sorted(glob.glob("/verif/seeded/%s-*/meta.json" % pid)):
